@@ -15,7 +15,8 @@ thread_local! {
   static LOG: RefCell<Vec<(u8, String, Value)>> = RefCell::new(vec![]);
 }
 
-/// behaviours: 0 accept, 1 reject, 2 accept iff string, 3 accept iff even integer, 4 accept iff null (claim absent)
+/// behaviours (kind % 5): 0 accept, 1 reject, 2 accept iff string, 3 accept iff even integer, 4 accept iff null (claim absent);
+/// kind / 5 selects the error variant a rejecting validator returns (validators in the wild use any of them)
 fn behaves(kind: u8, v: &Value) -> bool {
   match kind % 5 {
     0 => true,
@@ -32,7 +33,14 @@ fn vcall(id: u8, key: &str, v: &Value) -> Result<(), PasetoClaimError> {
   if behaves(kind, v) {
     Ok(())
   } else {
-    Err(PasetoClaimError::CustomValidation(key.to_string()))
+    Err(match (kind / 5) % 6 {
+      0 => PasetoClaimError::CustomValidation(key.to_string()),
+      1 => PasetoClaimError::Unexpected(key.to_string()),
+      2 => PasetoClaimError::Invalid(key.to_string(), "something else".to_string(), v.to_string()),
+      3 => PasetoClaimError::Missing(key.to_string()),
+      4 => PasetoClaimError::Expired,
+      _ => PasetoClaimError::RFC3339Date(v.to_string()),
+    })
   }
 }
 
@@ -93,6 +101,11 @@ pub struct ValCase {
   /// (validate_claim, or check_claim + extend_validation_claims) - they must be honoured from then on
   #[serde(default)]
   pub late_from: Option<u8>,
+  /// expected claims registered with check_claim next to the validators, on keys that have no validator:
+  /// (key index, relation of the payload member to the expected value E: 0 equal, 1 an array that contains E, 2 another value, 3 absent).
+  /// They only matter here in one respect: whatever they decide, a rejecting validator's verdict stands.
+  #[serde(default)]
+  pub checks: Vec<(u8, u8)>,
 }
 
 pub struct Validators {
@@ -128,6 +141,16 @@ impl Sub for Validators {
       }
       vals.push((vals.len(), k, *kind));
     }
+    let mut checks: Vec<(String, u8)> = vec![];
+    for (ki, rel) in c.checks.iter().take(3) {
+      let k = KEYS[(*ki as usize) % KEYS.len()].to_string();
+      if ["exp", "nbf", "iat"].contains(&k.as_str()) || vals.iter().any(|(_, kk, _)| *kk == k) || checks.iter().any(|(kk, _)| *kk == k) {
+        continue;
+      }
+      checks.push((k, *rel % 4));
+    }
+    let expected_of = |k: &str| format!("member-{k}");
+    let checks_hold = checks.iter().all(|(_, rel)| *rel == 0);
     CONFIG.with(|cfg| {
       let mut cfg = cfg.borrow_mut();
       *cfg = [0; 8];
@@ -167,6 +190,14 @@ impl Sub for Validators {
           continue;
         }
         o.insert(k.to_string(), v.clone());
+      }
+      for (k, rel) in &checks {
+        match rel {
+          0 => o.insert(k.clone(), json!(expected_of(k))),
+          1 => o.insert(k.clone(), json!([expected_of(k), "another"])),
+          2 => o.insert(k.clone(), json!("zzz")),
+          _ => o.remove(k),
+        };
       }
       let (payload, o) = match tv.non_object {
         Some(k) => (
@@ -212,6 +243,17 @@ impl Sub for Validators {
       };
       built.push((t, o, &tv.corruption));
     }
+    let check_specs: Vec<ClaimSpec> = checks
+      .iter()
+      .map(|(k, _)| match k.as_str() {
+        "iss" => ClaimSpec::Iss(expected_of(k)),
+        "sub" => ClaimSpec::Sub(expected_of(k)),
+        "aud" => ClaimSpec::Aud(expected_of(k)),
+        "jti" => ClaimSpec::Jti(expected_of(k)),
+        other => ClaimSpec::Custom(other.to_string(), json!(expected_of(other))),
+      })
+      .collect();
+    let tv_non_object: Vec<Option<u8>> = c.tokens.iter().map(|t| t.non_object).collect();
     let mut parser = new_parser(p, c.layer);
     let wrong_footer = format!("{}x", c.footer.clone().unwrap_or_default());
     let wrong_assertion = format!("{}x", c.assertion.clone().unwrap_or_default());
@@ -235,6 +277,14 @@ impl Sub for Validators {
       } else if parser.validate(spec, VALIDATORS[*id]).is_err() {
         return Verdict::Discard;
       }
+    }
+    for spec in &check_specs {
+      if parser.check(spec).is_err() {
+        return Verdict::Discard;
+      }
+    }
+    if !checks.is_empty() {
+      cl.tag(if checks_hold { "expected-claims-too:all-hold" } else { "expected-claims-too:some-fail" });
     }
     cl.tag(format!("{}:{}", p.label(), c.layer.label()));
     cl.tag(format!("validators={}", vals.len()));
@@ -328,6 +378,15 @@ impl Sub for Validators {
           vio!("C16:validator-ran-twice"; "validator for {:?} ran {} times in one parse", k, n);
         }
       }
+      // expected claims registered next to the validators: when one of them does not hold (or the payload is no object) the
+      // parse may fail for that reason - then only "a rejecting validator is never overruled" is judged here
+      let checks_ok = checks.is_empty() || (checks_hold && tv_non_object[i].is_none());
+      if !checks_ok {
+        if r.is_ok() && !model_rejects.is_empty() {
+          vio!("C16:rejecting-validator-ignored:{}", c.layer.label(); "validators for {:?} must reject payload {} but parse #{} succeeded (expected claims {:?} were registered too; log {:?})", model_rejects, Value::Object(payload.clone()), i + 1, checks, log);
+        }
+        continue;
+      }
       match (&r, model_rejects.is_empty()) {
         (Ok(_), true) => {
           for (id, k, _) in &vals {
@@ -382,8 +441,9 @@ fn case(proto: Proto, layer: Layer) -> BoxedStrategy<ValCase> {
     }
     out
   });
-  (gen::bytes32(), vec((0u8..11, 0u8..5), 0..5), toks, prop_oneof![Just(None), gen::jsonish(6).prop_map(Some)], prop_oneof![Just(None), gen::jsonish(6).prop_map(Some)], any::<bool>(), prop_oneof![3 => Just(None), 1 => (0u8..4).prop_map(Some)])
-    .prop_map(move |(seed, validators, tokens, footer, assertion, via_extend, late_from)| ValCase { proto, layer, seed, validators, tokens, footer, assertion, via_extend, late_from })
+  let behaviour = prop_oneof![3 => 0u8..5, 2 => 5u8..30];
+  (gen::bytes32(), vec((0u8..11, behaviour), 0..5), toks, prop_oneof![Just(None), gen::jsonish(6).prop_map(Some)], prop_oneof![Just(None), gen::jsonish(6).prop_map(Some)], any::<bool>(), prop_oneof![3 => Just(None), 1 => (0u8..4).prop_map(Some)], prop_oneof![3 => Just(vec![]), 1 => vec((0u8..11, 0u8..4), 1..3)])
+    .prop_map(move |(seed, validators, tokens, footer, assertion, via_extend, late_from, checks)| ValCase { proto, layer, seed, validators, tokens, footer, assertion, via_extend, late_from, checks })
     .boxed()
 }
 
